@@ -13,6 +13,19 @@ def fx(tok):
     return float("nan") if tok == "xnan" else struct.unpack("<d", struct.pack("<Q", int(tok[1:], 16)))[0]
 
 
+def euler_k6():
+    """a closed walk through all 30 ordered pairs of the six orientation codes (Hierholzer on the complete digraph)"""
+    out = {u: [v for v in range(6) if v != u] for u in range(6)}
+    stack, walk = [0], []
+    while stack:
+        u = stack[-1]
+        if out[u]:
+            stack.append(out[u].pop())
+        else:
+            walk.append(stack.pop())
+    return walk[::-1]
+
+
 def positions(rng, n, count):
     out = set()
     N = 4 ** n
@@ -44,59 +57,85 @@ def run(run):
         for o in range(6):
             for s in positions(rng, n, 12 if quick else 150):
                 cases.append((s, n, o))
-    reqs = [f"s_to_anchor {s} {n} {o}" for (s, n, o) in cases]
-    impl, model = core.both(run, reqs, "s_to_anchor")
-    # second round: pentagons of those anchors, then locating the pentagon's centre
-    preq = []
-    anchors = {}
-    for (s, n, o), a in zip(cases, impl):
-        t = a.split()
-        if t[0] != "ok":
-            run.violation("s_to_anchor failed on a valid position", f"s_to_anchor {s} {n} {o}", a)
-            preq.append("face_vertices")
-            continue
-        k, i, j, f0, f1 = t[1:6]
-        anchors[(s, n, o)] = (int(i), int(j), int(f0), int(f1), int(k))
-        preq.append(f"pentagon_vertices {n} 0 {k} {i} {j} {f0} {f1}")
-    pimpl, pmodel = core.both(run, preq, "pentagon_vertices")
-    lreq = []
-    centres = {}
-    min_margin = 10.0
-    seen = {}
-    for (s, n, o), q, a in zip(cases, preq, pimpl):
-        run.evaluations += 1
-        if not a.startswith("ok ") or (s, n, o) not in anchors:
-            lreq.append("get_res0_cells")
-            continue
-        pts = [tuple(fx(x) for x in p.split(",")) for p in a[3:].split(";")]
-        # distinct positions -> distinct pentagons (exhaustive depths)
-        if n <= nmax:
-            key = (n, o, a)
-            if key in seen and seen[key] != s:
-                run.violation(f"positions {seen[key]} and {s} (depth {n}, orientation {o}) have the same pentagon", [q], a[:200])
-            seen[key] = s
-        cx = sum(p[0] for p in pts) / len(pts) * (2.0 ** n)
-        cy = sum(p[1] for p in pts) / len(pts) * (2.0 ** n)
-        u = bi[0] * cx + bi[1] * cy
-        v = bi[2] * cx + bi[3] * cy
-        centres[(s, n, o)] = (u, v)
-        if not (u > 0 and v > 0 and u + v < 2.0 ** n):
-            run.violation("the centre of a pentagon lies outside its quintant's triangle", q, f"lattice coordinates ({u}, {v}), depth {n}")
-        ai, aj, f0, f1, _ = anchors[(s, n, o)]
-        # margin to the three families of lattice lines (the theorem's hypothesis: strictly inside the anchor's lattice triangle)
-        fr = lambda x: abs(x - round(x))
-        if n <= 20:
-            min_margin = min(min_margin, fr(u), fr(v), fr(u + v))
-        lreq.append(f"ij_to_s {hx(u)} {hx(v)} {n} {o}")
-    limpl, lmodel = core.both(run, lreq, "ij_to_s")
-    for (s, n, o), q, a in zip(cases, lreq, limpl):
-        if not q.startswith("ij_to_s"):
-            continue
-        run.evaluations += 1
-        if a != f"ok {s}":
-            run.violation(f"locating the centre of the pentagon at position {s} (depth {n}, orientation {o}) returns {a}", [f"s_to_anchor {s} {n} {o}", q], a)
-        if n > 1:
-            run.nontrivial.add((s, n, o))
+    state = {"min_margin": 10.0}
+
+    def roundtrip(cases, tag):
+        min_margin = state["min_margin"]
+        reqs = [f"s_to_anchor {s} {n} {o}" for (s, n, o) in cases]
+        impl, model = core.both(run, reqs, "s_to_anchor")
+        # second round: pentagons of those anchors, then locating the pentagon's centre
+        preq = []
+        anchors = {}
+        for (s, n, o), a in zip(cases, impl):
+            t = a.split()
+            if t[0] != "ok":
+                run.violation("s_to_anchor failed on a valid position", f"s_to_anchor {s} {n} {o}", a)
+                preq.append("face_vertices")
+                continue
+            k, i, j, f0, f1 = t[1:6]
+            anchors[(s, n, o)] = (int(i), int(j), int(f0), int(f1), int(k))
+            preq.append(f"pentagon_vertices {n} 0 {k} {i} {j} {f0} {f1}")
+        pimpl, pmodel = core.both(run, preq, "pentagon_vertices")
+        lreq = []
+        centres = {}
+        min_margin = 10.0
+        seen = {}
+        for (s, n, o), q, a in zip(cases, preq, pimpl):
+            run.evaluations += 1
+            if not a.startswith("ok ") or (s, n, o) not in anchors:
+                lreq.append("get_res0_cells")
+                continue
+            pts = [tuple(fx(x) for x in p.split(",")) for p in a[3:].split(";")]
+            # distinct positions -> distinct pentagons (exhaustive depths)
+            if n <= nmax:
+                key = (n, o, a)
+                if key in seen and seen[key] != s:
+                    run.violation(f"positions {seen[key]} and {s} (depth {n}, orientation {o}) have the same pentagon", [q], a[:200])
+                seen[key] = s
+            cx = sum(p[0] for p in pts) / len(pts) * (2.0 ** n)
+            cy = sum(p[1] for p in pts) / len(pts) * (2.0 ** n)
+            u = bi[0] * cx + bi[1] * cy
+            v = bi[2] * cx + bi[3] * cy
+            centres[(s, n, o)] = (u, v)
+            if not (u > 0 and v > 0 and u + v < 2.0 ** n):
+                run.violation("the centre of a pentagon lies outside its quintant's triangle", q, f"lattice coordinates ({u}, {v}), depth {n}")
+            ai, aj, f0, f1, _ = anchors[(s, n, o)]
+            # margin to the three families of lattice lines (the theorem's hypothesis: strictly inside the anchor's lattice triangle)
+            fr = lambda x: abs(x - round(x))
+            if n <= 20:
+                min_margin = min(min_margin, fr(u), fr(v), fr(u + v))
+            lreq.append(f"ij_to_s {hx(u)} {hx(v)} {n} {o}")
+        limpl, lmodel = core.both(run, lreq, "ij_to_s")
+        for (s, n, o), q, a in zip(cases, lreq, limpl):
+            if not q.startswith("ij_to_s"):
+                continue
+            run.evaluations += 1
+            if a != f"ok {s}":
+                run.violation(f"locating the centre of the pentagon at position {s} (depth {n}, orientation {o}) returns {a}", [f"s_to_anchor {s} {n} {o}", q], a)
+            if n > 1:
+                run.nontrivial.add((s, n, o))
+        state["min_margin"] = min_margin
+        state.setdefault("first", (reqs, impl, pimpl, limpl, anchors))
+        state["last_impl"] = impl
+        return anchors
+
+    anchors = roundtrip(cases, "orientation-major")
+    # the same positions again with the orientation varying fastest (consecutive calls differ only in the orientation) and
+    # in reverse: a position's anchor and the located position must not depend on the calls made before
+    # every ordered pair of orientations occurs as two consecutive calls on the same (position, depth): an Eulerian circuit of K6
+    circuit = euler_k6()
+    base = sorted({(c[0], c[1]) for c in cases if c[1] <= (3 if quick else 5)} | {(c[0], c[1]) for c in cases if c[1] > nmax and c[0] % 3 == 0}, key=lambda c: (c[1], c[0]))
+    inter = [(s0, n0, o) for (s0, n0) in base for o in circuit if s0 < 4 ** n0]
+    resp_a = dict(zip(cases, state["first"][1]))
+    roundtrip(inter, "orientation-circuit")
+    for c, a in zip(inter, state["last_impl"]):
+        if c in resp_a and resp_a[c] != a:
+            k = inter.index(c)
+            run.violation(f"s_to_anchor({c[0]}, depth {c[1]}, orientation {c[2]}) depends on the calls made before it: '{resp_a[c]}' in orientation-major order, '{a}' directly after other orientations of the same position",
+                          [f"s_to_anchor {c[0]} {c[1]} {c[2]}"], a)
+            break
+    reqs, impl, pimpl, limpl, anchors = state["first"]
+    min_margin = state["min_margin"]
     # distinct anchors on the exhaustive depths
     for n in range(1, nmax + 1):
         for o in range(6):
@@ -104,7 +143,7 @@ def run(run):
             run.evaluations += 1
             if None not in al and len({x[:4] for x in al}) != 4 ** n:
                 run.violation(f"two positions share an anchor triangle at depth {n}, orientation {o}", f"s_to_anchor * {n} {o}", "duplicate (offset, flips)")
-    run.rule = ("all 4^n positions for n <= %d and all 6 orientations (exhaustive), and for n up to 29 boundary / digit-pattern (all-0, all-3, alternating, single digit, parent-boundary) / random positions; "
+    run.rule = ("all 4^n positions for n <= %d and all 6 orientations (exhaustive; orientation-major order, and again for n <= 3 (quick) / 5 (thorough) plus a third of the deep positions along a circuit through all 30 ordered pairs of orientations, so that every orientation directly follows every other one on the same position), and for n up to 29 boundary / digit-pattern (all-0, all-3, alternating, single digit, parent-boundary) / random positions; "
                 "per position: anchor, pentagon, centre in the quintant triangle, distinctness, and locating the centre returns the position; non-trivial = distinct (position, depth > 1, orientation) round trips" % nmax)
     run.samples = [{"request": reqs[i], "impl": impl[i], "pentagon": pimpl[i][:80], "locate": limpl[i]} for i in rng.sample(range(len(reqs)), 6)]
     run.extra["exhaustive_up_to_depth"] = nmax
